@@ -14,7 +14,7 @@ KINDS = {"int": z3.IntSort, "bool": z3.BoolSort, "str": z3.StringSort}
 
 
 class Lemma:
-    def __init__(self, name, params, hyps, goal, induction=None, unfold=(), props=(), note="", depth=2):
+    def __init__(self, name, params, hyps, goal, induction=None, unfold=(), props=(), note="", depth=2, assumed=False):
         self.name = name
         self.params = dict(params)  # name -> kind (V | int | list | str | bool)
         self.hyps = list(hyps)
@@ -24,6 +24,7 @@ class Lemma:
         self.props = list(props)
         self.note = note
         self.depth = depth
+        self.assumed = assumed  # an external fact (not a theorem about the spec functions): never proved, always listed as an assumption
 
 
 def lemma(name, **kw):
